@@ -4,6 +4,7 @@ C11 — Encryption: nothing leaks, nothing is delivered without the right passwo
 -/
 import SevenZ.Lemmas.Aes
 import SevenZ.Model.Crypto
+import SevenZ.Lemmas.Utf16
 namespace SevenZ.C11
 open SevenZ SevenZ.Impl
 
@@ -70,5 +71,57 @@ theorem wrong_key_needs_collision (crc : Bytes → Nat) (d g : Bytes)
 
 example : runModes (initMode false) [.setEncrypted true, .setEncoded false, .setEncrypted true] =
     { encoded := true, encrypted := true } := by decide
+
+
+/-- little-endian bytes of 16-bit units determine the units -/
+theorem unitsToBytes_inj : ∀ (us vs : List Nat), (∀ u ∈ us, u < 65536) → (∀ v ∈ vs, v < 65536) →
+    unitsToBytes us = unitsToBytes vs → us = vs
+  | [], [], _, _, _ => rfl
+  | [], _ :: _, _, _, h => by simp [unitsToBytes] at h
+  | _ :: _, [], _, _, h => by simp [unitsToBytes] at h
+  | u :: us, v :: vs, hu, hv, h => by
+    simp only [unitsToBytes, List.cons.injEq] at h
+    obtain ⟨h1, h2, h3⟩ := h
+    have := hu u (by simp); have := hv v (by simp)
+    have huv : u = v := by omega
+    rw [huv, unitsToBytes_inj us vs (fun x hx => hu x (by simp [hx])) (fun x hx => hv x (by simp [hx])) h3]
+
+/-- The key is derived from exactly the password the caller gave: for a fixed salt, two passwords (lists of
+    Unicode scalar values, in any normalisation form) feed the same bytes to the key derivation only if they are
+    the same list of scalar values. In particular a password is never replaced by a canonically equivalent one
+    (`a` + U+0308 and U+00E4 are different keys, as for every other 7z implementation). -/
+theorem key_material_injective (salt : Bytes) (p q : List Nat)
+    (hp : ∀ c ∈ p, IsScalar c) (hq : ∀ c ∈ q, IsScalar c)
+    (h : keyMaterial salt p = keyMaterial salt q) : p = q := by
+  unfold keyMaterial at h
+  have hb := List.append_cancel_left h
+  have hup : ∀ u ∈ p.flatMap unitsOf, u < 65536 := by
+    intro u hu; rw [List.mem_flatMap] at hu; obtain ⟨c, hc, huc⟩ := hu
+    exact (unitsOf_ok c (hp c hc) u huc).2
+  have huq : ∀ u ∈ q.flatMap unitsOf, u < 65536 := by
+    intro u hu; rw [List.mem_flatMap] at hu; obtain ⟨c, hc, huc⟩ := hu
+    exact (unitsOf_ok c (hq c hc) u huc).2
+  have hunits := unitsToBytes_inj _ _ hup huq hb
+  have h1 := decode_flatMap p hp
+  have h2 := decode_flatMap q hq
+  rw [hunits, h2] at h1
+  exact (Option.some.inj h1).symm
+
+/-- the key material is the salt followed by two bytes per UTF-16 unit: nothing else (no terminator, no
+    length prefix) enters the hash besides the round counter -/
+theorem key_material_length (salt : Bytes) (p : List Nat) :
+    (keyMaterial salt p).length = salt.length + 2 * (p.flatMap unitsOf).length := by
+  unfold keyMaterial
+  rw [List.length_append]
+  congr 1
+  generalize p.flatMap unitsOf = us
+  induction us with
+  | nil => rfl
+  | cons u us ih => simp only [unitsToBytes, List.length_cons, ih]; omega
+
+/-- non-vacuity: the decomposed and the precomposed spelling of "ä" are both legal passwords and give
+    different key material -/
+example : keyMaterial [1, 2] [0x61, 0x308] = [1, 2, 0x61, 0, 0x08, 0x03] ∧
+    keyMaterial [1, 2] [0xE4] = [1, 2, 0xE4, 0] ∧ IsScalar 0x61 ∧ IsScalar 0x308 ∧ IsScalar 0xE4 := by decide
 
 end SevenZ.C11
